@@ -951,6 +951,13 @@ _SER_TAIL = "            for kv in k, v:\n                w(pack(\"!H\", len(kv)
 _SER_GEN_TAIL = "            for kv in k, v:\n                yield pack(\"!H\", len(kv))\n                yield kv\n        yield pack(\"!H\", 0)\n"
 
 MUTANTS = [
+    # each row of an AmpList is converted into a container of its own
+    Mutant("amplist-rows-accumulate-in-one-box-in-a-loop", AMP, "        return b\"\".join(\n            [\n                _objectsToStrings(objects, self.subargs, Box(), proto).serialize()\n                for objects in inObject\n            ]\n        )\n",
+           "        collected = Box()\n        chunks = []\n        for objects in inObject:\n            _objectsToStrings(objects, self.subargs, collected, proto)\n            chunks.append(collected.serialize())\n        return b\"\".join(chunks)\n",
+           expect_rule="argument/list-row-container-fresh"),
+    Mutant("amplist-box-cleared-only-of-required-keys", AMP, "        return b\"\".join(\n            [\n                _objectsToStrings(objects, self.subargs, Box(), proto).serialize()\n                for objects in inObject\n            ]\n        )\n",
+           "        shared = Box()\n        out = []\n        for objects in inObject:\n            for name, argument in self.subargs:\n                if not argument.optional:\n                    shared.pop(name, None)\n"
+           "            out.append(_objectsToStrings(objects, self.subargs, shared, proto).serialize())\n        return b\"\".join(out)\n", expect_rule="argument/list-rows-independent"),
     Mutant("second-pass-encodes-value-before-key", AMP, "            for kv in k, v:\n                w(pack(\"!H\", len(kv)))\n                w(kv)\n        w(pack(\"!H\", 0))\n",
            "        for pair in i:\n            for kv in reversed(pair):\n                L += (pack(\"!H\", len(kv)), kv)\n        L.append(pack(\"!H\", 0))\n", expect_rule="box/wire-form"),
     Mutant("second-pass-extends-with-the-prefix-only", AMP, "            for kv in k, v:\n                w(pack(\"!H\", len(kv)))\n                w(kv)\n        w(pack(\"!H\", 0))\n",
@@ -1016,6 +1023,8 @@ MUTANTS = [
 ]
 
 SILENT = [
+    Silent("amplist-rows-in-a-loop-with-a-box-per-row", AMP, "        return b\"\".join(\n            [\n                _objectsToStrings(objects, self.subargs, Box(), proto).serialize()\n                for objects in inObject\n            ]\n        )\n",
+           "        chunks = []\n        for objects in inObject:\n            rowBox = Box()\n            _objectsToStrings(objects, self.subargs, rowBox, proto)\n            chunks.append(rowBox.serialize())\n        return b\"\".join(chunks)\n"),
     Silent("serialize-validates-every-pair-then-encodes-in-a-second-pass", AMP, "            for kv in k, v:\n                w(pack(\"!H\", len(kv)))\n                w(kv)\n        w(pack(\"!H\", 0))\n",
            "        for pair in i:\n            for kv in pair:\n                L += (pack(\"!H\", len(kv)), kv)\n        L.append(pack(\"!H\", 0))\n"),
     Silent("serialize-joins-a-validating-generator", AMP, _SER_HEAD, _SER_GEN_HEAD, more=[(AMP, _SER_TAIL, _SER_GEN_TAIL)]),
